@@ -1161,9 +1161,11 @@ func c12Directed(c *ctx) error {
 		k := 1 + rng.Intn(4)
 		running := rng.Intn(2)
 		want := map[string]bool{}
+		emptyFirst := i%4 == 1 // the first completed split holds nothing (an empty directory)
+		allEmpty := i%16 == 3  // … or every split does: the commit yields an empty bundle
 		for sidx := 1; sidx <= k+running; sidx++ {
 			files := map[string][]byte{}
-			for f := 0; f < 1+rng.Intn(3); f++ {
+			for f := 0; f < 1+rng.Intn(3) && !(emptyFirst && sidx == 1) && !allEmpty; f++ {
 				name := fmt.Sprintf("s%d/f%d", sidx, f)
 				files[name] = []byte(fmt.Sprintf("%d-%d-%d", i, sidx, f))
 				if sidx <= k {
